@@ -123,6 +123,24 @@ Theorem c04_ifeq_with_plain_arguments :
 Proof. exact ifeq_plain. Qed.
 Print Assumptions c04_ifeq_with_plain_arguments.
 
+(* #switch with plain keyed cases: the value of the first case whose key equals the first argument (as numbers when both
+   are numbers, else as text; both trimmed), else the value of the last "#default = v" case, else empty *)
+Theorem c04_switch_with_plain_keyed_cases :
+  forall pfnames lib opts stk ea x cases,
+    (length stk < 100)%nat -> plain x = true -> forallb case_ok cases = true -> o_parserfns opts = true ->
+    exists F, forall fuel, (F <= fuel)%nat ->
+      expand_T pfnames lib opts fuel stk ea ((switch_head ++ x)%list :: map mkcase cases)
+      = Some (add_newline (switch_result (strip_i x) cases None)).
+Proof. exact switch_plain. Qed.
+Print Assumptions c04_switch_with_plain_keyed_cases.
+
+Example c04_switch_example :     (* {{#switch: 02 | a = x | +2 = two | #default = d }} gives "two"; with 3 for 02 it gives "d" *)
+  let cases := [(chars [32; 97; 32], chars [32; 120]); (chars [32; 43; 50; 32], chars [32; 116; 119; 111; 32]);
+                (chars [32; 35; 100; 101; 102; 97; 117; 108; 116; 32], chars [32; 100; 32])] in
+  forallb case_ok cases = true /\
+  codes (switch_result (chars [48; 50]) cases None) = [116; 119; 111] /\ codes (switch_result (chars [51]) cases None) = [100].
+Proof. repeat split; reflexivity. Qed.
+
 Theorem c04_flat_rule_is_mediawikis_without_trailing_line_breaks :
   forall lib name args t, find_tpl lib name = Some t -> no_trailing_nl (bind_args args 1 []) = true ->
     result_of lib name args = mw_result_of lib name args.
